@@ -69,12 +69,16 @@ def case_strategy(draw):
             # process (feature construction, ranking, cardinality / count bookkeeping); 'constant' = every column held one value there
             # (a stream sorted by day, a sparse flag that was empty so far) for the columns marked in prior_const, 'same' = the earlier batches had the same rows
             'prior': draw(st.sampled_from([0, 0, 0, 1, 2])), 'prior_kind': draw(st.sampled_from(['constant', 'constant', 'same'])),
-            'prior_const': draw(st.lists(st.booleans(), min_size=k, max_size=k))}
+            'prior_const': draw(st.lists(st.booleans(), min_size=k, max_size=k)),
+            # column names that are not in lexicographic order in the frame ('user' before 'age', 'f10' before 'f2')
+            'names': draw(st.sampled_from(['c', 'c', 'mixed'])),
+            # columns stored with pandas' category dtype (string categories): values are the same strings
+            'dtype': draw(st.sampled_from(['str', 'str', 'category']))}
 
 
 def build(case):
     k = len(case['cols'])
-    names = [f'c{i}' for i in range(k)]
+    names = [f'c{i}' for i in range(k)] if case.get('names', 'c') == 'c' else ['user', 'age', 'f10', 'city', 'f2'][:k]
     data = dict(zip(names, case['cols']))
     order_names = list(names)
     order_names.insert(min(case['label_pos'], k), 'label')
@@ -93,6 +97,9 @@ def build(case):
     elif kind == 'stacked':     # two frames stacked without ignore_index: labels 0..h-1, 0..n-h-1
         h = (n + 1) // 2
         df.index = list(range(h)) + list(range(n - h))
+    if case.get('dtype') == 'category':
+        for c in names:
+            df[c] = df[c].astype('category')
     return df, names
 
 
@@ -108,13 +115,17 @@ def oracle(case, rec):
         if case.get('prior_kind') == 'same':
             rows = [[str(df[c].iloc[i]) for c in names_in_order] for i in range(len(df))]
         else:
-            const = {f'c{j}' for j, flag in enumerate(case.get('prior_const') or []) if flag} or set(names_in_order)
+            const = {feat[j] for j, flag in enumerate(case.get('prior_const') or []) if flag and j < len(feat)} or set(names_in_order)
             rows = [[('0' if i % 2 else '1') if c == 'label' else str(df[c].iloc[0 if c in const else i % len(df)]) for c in names_in_order]
                     for i in range(max(2, len(df)))]
         cr.compute_batch_ranking(rows, set(), args, stubs.InlinePool(), names_in_order, logging.getLogger('c10'), stubs.PBar())
     if case.get('prior'):
         rec.cls('after-%s-earlier-batches' % case.get('prior_kind'))
     out = cr.compute_combined_features(df, args, stubs.PBar())
+    if case.get('dtype') == 'category':
+        rec.cls('category-dtype-columns')
+    if case.get('names') == 'mixed':
+        rec.cls('unsorted-column-names')
     rec.cls('order=%d' % order, 'capped' if cap < math.comb(len(feat), order) else 'uncapped', 'index=' + case.get('index', 'range'))
     if not df.equals(before):
         raise Violation('the input frame was modified in place', kind='C10/originals')
@@ -193,7 +204,12 @@ def oracle(case, rec):
 def wide_case(draw):
     """Production-size batch: two id-like columns whose joint values are all distinct. Any digest narrower than the stated
     64 bits collides here with near certainty (32 bits: P(no collision) < 1e-4 at 3*10^5 rows)."""
-    if draw(st.integers(0, 2)) == 0:
+    pick = draw(st.integers(0, 3))
+    if pick == 3:
+        # medium cardinalities: 12-40 values per column (more value combinations than a byte / a short can number), str or category dtype
+        return {'medium': {'cards': draw(st.lists(st.integers(12, 40), min_size=2, max_size=3)), 'rows': draw(st.integers(300, 1500)),
+                           'seed': draw(st.integers(0, 2**32 - 1)), 'dtype': draw(st.sampled_from(['category', 'category', 'str']))}}
+    if pick == 0:
         # order 4 over four id columns with ~10^4 values each: the tuple SPACE exceeds 2^53 although the frame is small
         return {'order4': {'card': draw(st.integers(9800, 10400)), 'seed': draw(st.integers(0, 2**32 - 1))}}
     return {'n': draw(st.integers(300_000, 420_000)), 'seed': draw(st.integers(0, 2**32 - 1)), 'a_card': draw(st.sampled_from([600, 1000, 5000]))}
@@ -226,6 +242,34 @@ def oracle_wide(case, rec):
             raise Violation(f'{nt_} distinct (a,b,c,d) tuples over {card} ids per column but {nd} distinct interaction values',
                             kind='C10/wide-digest')
         return
+    if 'medium' in case:
+        g = case['medium']
+        rng = np.random.Generator(np.random.PCG64(int(g['seed'])))
+        names = ['city', 'device', 'hour'][:len(g['cards'])]
+        n = int(g['rows'])
+        data = {nm: [f'{nm}_{int(v)}' for v in rng.integers(0, int(c), size=n)] for nm, c in zip(names, g['cards'])}
+        df = pd.DataFrame(data)
+        if g['dtype'] == 'category':
+            df = df.astype('category')
+        df['label'] = ['0', '1'] * (n // 2) + ['0'] * (n % 2)
+        order = len(names)
+        args = stubs.make_args(interaction_order=order, combination_number_upper_bound=2**15, heuristic='MI-numba-randomized')
+        stubs.reset_globals()
+        out = cr.compute_combined_features(df, args, stubs.PBar())
+        name = ' AND '.join(names)
+        if name not in out.columns:
+            raise Violation(f'interaction of {names} is not named {name!r}: columns {list(out.columns)}', kind='C10/names')
+        tuples = list(zip(*[data[nm] for nm in names]))
+        vals = out[name].tolist()
+        t2v, v2t = {}, {}
+        for t, v in zip(tuples, vals):
+            if t2v.setdefault(t, v) != v or v2t.setdefault(v, t) != t:
+                raise Violation(f'{name!r} ({g["dtype"]} columns with {g["cards"]} values): value tuples and interaction values are not '
+                                f'in bijection, e.g. tuple {t!r} -> {v!r} while {v2t.get(v)!r} / {t2v.get(t)!r} were seen before '
+                                f'({len(set(tuples))} distinct tuples, {len(set(vals))} distinct values)', kind='C10/wide-digest')
+        rec.nt(True, key=case)
+        rec.cls('medium-cardinalities:' + g['dtype'])
+        return
     n, a_card = int(case['n']), int(case['a_card'])
     rng = np.random.Generator(np.random.PCG64(int(case['seed'])))
     idx = rng.permutation(n)
@@ -251,4 +295,4 @@ ORACLES['C10/names'] = oracle_wide
 
 def run(ctx):
     drive(ctx, [Clause('C10/interaction', case_strategy, oracle, quick=1200, thorough=40000, quick_shards=8),
-                Clause('C10/wide-digest', wide_case, oracle_wide, quick=6, thorough=96, quick_shards=6, thorough_shards=16)])
+                Clause('C10/wide-digest', wide_case, oracle_wide, quick=12, thorough=128, quick_shards=6, thorough_shards=16)])
